@@ -144,7 +144,7 @@ type refGen struct {
 }
 
 func (g *refGen) emit(f string, a ...any) { g.lines = append(g.lines, "    "+fmt.Sprintf(f, a...)) }
-func (g *refGen) fresh(p string) string  { g.nvar++; return fmt.Sprintf("%s%d", p, g.nvar) }
+func (g *refGen) fresh(p string) string   { g.nvar++; return fmt.Sprintf("%s%d", p, g.nvar) }
 
 func (g *refGen) tree(depth, budget int) *rnode {
 	g.nid++
